@@ -80,6 +80,11 @@ def run(tier):
             add("{% for i in range(start=a, end=b, step_by=c) %}{{ i }},{% endfor %}", ctx,
                 {"ok": "".join("%d," % i for i in exp["s"]), "err": None, "any": "ANY"}[exp["r"]], "range", {"range": [v["start"], v["end"], v["step"]]})
             continue
+        if v["fam"] == "parity":
+            for enc in ("$i64", "$i128"):
+                add("{{ n is odd }},{{ n is even }},{{ n is divisible_by(divisor=d) }}", {"n": {enc: str(v["n"])}, "d": v["d"]},
+                    "%s,%s,%s" % ("true" if v["odd"] else "false", "false" if v["odd"] else "true", "true" if v["div"] else "false"), "parity", {"parity": [v["n"], v["d"], enc]})
+            continue
         if v["fam"] == "types":
             if v["recv"] == "bytes":        # not covered by the documentation of the type tests
                 continue
